@@ -32,6 +32,7 @@ func TestVerifC07TypeNameIdentity(t *testing.T) {
 		pool, err := typegen.Generate(t, 3)
 		if err != nil {
 			c.Skip("generator_produced_invalid_source")
+			c.Note(strings.SplitN(err.Error(), "\n", 2)[0])
 			return
 		}
 		b := New(8, types.SizesFor("gc", "amd64"))
